@@ -450,7 +450,7 @@ private theorem touches_ast {p : AProgram} {ab : ABlock} {t : Bool} {x : Node} {
   simp only [Prod.mk.injEq] at hye
   obtain ⟨hy1, rfl⟩ := hye
   obtain ⟨f, hf1, hf2⟩ := (mem_frameAccesses_answers p y.2 (fid, k)).1 hm
-  exact ⟨f, hf1, y.2, by rw [← hy1]; exact hy, hf2, fun h => by simpa [answersOf] using ht h⟩
+  exact ⟨f, hf1, y.2, by rw [← hy1]; exact hy, hf2, fun h => by simpa [answersOf, answersWith] using ht h⟩
 
 open QV.HandlerFromAst in
 private theorem frameAccessA_defined {p : AProgram} {i : Ast.Instruction} {f : C26.Frame} {k : Kind}
@@ -499,14 +499,14 @@ theorem C24_ast_frameSpec (p : AProgram) (ab : ABlock) (hab : ab ∈ astBlocks p
     obtain ⟨y, hy, hye⟩ := List.mem_map.1 hi
     simp only [Prod.mk.injEq] at hye
     obtain ⟨hy1, rfl⟩ := hye
-    exact ⟨y.2, by rw [← hy1]; exact hy, by simpa [answersOf] using hr⟩
+    exact ⟨y.2, by rw [← hy1]; exact hy, by simpa [answersOf, answersWith] using hr⟩
   refine ⟨?_, ?_, ?_, ?_⟩
   · have ho := hspec.ordered
     rw [schedBlock_items, List.pairwise_map] at ho
     refine ho.imp ?_
     intro x y hxy f k1 k2 h1 h2 hc
     have := hxy (frameId p f) k1 k2 (toF x f k1 h1) (toF y f k2 h2) hc
-    exact ⟨this.1, fun s1 s2 => this.2 (by simpa [answersOf] using s1) (by simpa [answersOf] using s2)⟩
+    exact ⟨this.1, fun s1 s2 => this.2 (by simpa [answersOf, answersWith] using s1) (by simpa [answersOf, answersWith] using s2)⟩
   · intro x hx ⟨f, k, hf⟩
     have hne : frameAcc (answersOf p x.2) ≠ [] := by
       intro hnil
@@ -514,7 +514,7 @@ theorem C24_ast_frameSpec (p : AProgram) (ab : ABlock) (hab : ab ∈ astBlocks p
       rw [hnil] at this; simp at this
     have := hspec.fromStart (x.1, answersOf p x.2) (by
       rw [schedBlock_items]; exact List.mem_map.2 ⟨x, hx, rfl⟩) hne
-    exact ⟨this.1, fun s => this.2 (by simpa [answersOf] using s)⟩
+    exact ⟨this.1, fun s => this.2 (by simpa [answersOf, answersWith] using s)⟩
   · intro e he hl
     obtain ⟨hpos, hj⟩ := hspec.schedJust e he hl
     rw [hlen] at hpos
